@@ -279,6 +279,11 @@ def run_case_transport(case, cl=None):
         cl.add("report_while_booting")
     fw = Firmware(greeting=greeting,
                   behaviours={txt: {"report": line} for txt, line, _ in items})
+    if case.get("burst") and case["transport"] == "serial":
+        # report lines arrive over the serial line in two bursts 80 ms apart
+        # (well inside the port's read timeout): they are still one line each
+        fw.burst_gap = 0.08
+        cl.add("report_lines_in_two_bursts")
     latest = dict(boot_truth)
 
     def session(make):
@@ -381,5 +386,6 @@ def run_shard(ctx):
          "frag": st.sampled_from([None, "lf_alone", "halves", "bytes3"]),
          "boot": st.one_of(st.none(), report_strategy(only="temp")),
          "boot_first": st.booleans(),
+         "burst": st.booleans(),
          "reports": st.lists(report_strategy(), min_size=1, max_size=6)}), body_t,
         5 if ctx.tier == "quick" else 120, sub="transport")
